@@ -49,6 +49,10 @@ def variant(case, k):
     props = root.setdefault("properties", {}) if isinstance(root.get("properties", {}), dict) else None
     if props is not None and "vf" not in props:
         props["vf"] = {"format": "vf", "pattern": "^a"}
+    if props is not None and "patternProperties" not in root:
+        # the same two regular expressions in every variant, in another member order and with other subschemas
+        pp = [("^v", {"type": "string"}), ("x$", {"minimum": 7})]      # "vq": "s" / "wx": 9 satisfy one arrangement only
+        root["patternProperties"] = dict(pp if k % 2 == 0 else [(pp[1][0], pp[0][1]), (pp[0][0], pp[1][1])])
     return c
 
 
@@ -113,6 +117,8 @@ def instance_for(case, k):
     x = copy.deepcopy(xs[k % len(xs)])
     if isinstance(x, dict):
         # the SAME string goes through every validator's own "vf" function (they disagree about it)
+        x.setdefault("vq", "s")     # meets only the first expression
+        x.setdefault("wx", 9)       # meets only the second
         x.setdefault("vf", ["ab", "b", "abcd", "abc"][len(case["instances"][0]) % 4 if isinstance(
             case["instances"][0], (list, dict, str)) else 0])
     return x
@@ -204,6 +210,26 @@ class C18(Prop):
                          "validator %d of %d (variant worlds colliding on URIs): O-SPEC says %s, implementation %d "
                          "errors; refs met %r" % (k, n, "valid" if want else "invalid", len(s), ctx.ref_log[:5]))
                 return res
+            # ... keyword by keyword at the root, since instances here are built to fail in several places at once
+            root = vc["root"]
+            if want is not None and isinstance(root, dict) and "$ref" not in root:
+                import json
+                got_kw = set(json.loads(e[3])[0] for e in s if json.loads(e[3]))
+                got_kw = set("if" if g in ("then", "else") else g for g in got_kw)     # reported under then / else
+                for kname in list(root):
+                    if kname not in spec.KW[case["draft"]]:
+                        continue
+                    ctx2 = spec.Ctx(case["draft"], resolver=GW.oracle_resolver(vc), fmt=ctx.fmt)
+                    try:
+                        viol = bool(spec.keyword_violations(ctx2, root, kname, instance_for(case, k), ""))
+                    except (spec.Unsupported, spec.Unresolvable, RecursionError):
+                        continue
+                    if ctx2.inexact or viol == (kname in got_kw):
+                        continue
+                    res.fail(("alone-keyword-differs-from-reference", kname, "impl-silent" if viol else "impl-reports"),
+                             "validator %d of %d: root keyword %r: O-SPEC says %s, implementation reports %r" % (
+                                 k, n, kname, "violated" if viol else "satisfied", sorted(got_kw)))
+                    return res
         res.labels.append("construction:" + str(case.get("construction", "own-resolver")))
         total = sum(len(s) + 1 for s in solos)
         if sum(len(s) for s in solos) == 0:
